@@ -241,7 +241,9 @@ def work(arg):
 
 TOOLS = [("unzck", ["f.zck"]), ("unzck", ["-c", "f.zck"]), ("unzck", ["--dict", "f.zck"]), ("unzck", ["--header", "f.zck"]),
          ("zck_read_header", ["-c", "f.zck"]), ("zck_read_header", ["-f", "f.zck"]), ("zck_delta_size", ["f.zck", "peer.zck"]),
-         ("zck_delta_size", ["peer.zck", "f.zck"]), ("zck_gen_zdict", ["-d", ".", "f.zck"])]
+         ("zck_delta_size", ["peer.zck", "f.zck"]), ("zck_gen_zdict", ["-d", ".", "f.zck"]),
+         # the same with full debug logging: every zck_log() call formats its arguments (digests, sizes taken from the file)
+         ("unzck", ["-vvv", "-c", "f.zck"]), ("zck_read_header", ["-vvv", "-c", "f.zck"]), ("zck_delta_size", ["-vv", "f.zck", "peer.zck"])]
 TOOLS_NET = [("zckdl", ["-s", "f.zck", "http://127.0.0.1:1/x.zck"])]
 
 
